@@ -100,7 +100,7 @@ def two_digit_year_rule(ctx, rule: str) -> None:
     pf = prog.function("v2version.parse_field_values_to_cinfo")
     ctx.visit(pf.fq)
     _pats, _fields, _fmts = _pt(ctx)
-    short_fields = sorted({_fields[p] for p in _fields if _formats.describe_formatter(_fmts[p]).last2})
+    short_fields = sorted({_fields[p] for p in _fields if p in _fmts and _formats.describe_formatter(_fmts[p]).last2})
     ctx.floor(rule, "fields with two-digit renderings", len(short_fields), 2)
     for fld in short_fields:
         ok, how = _expansion_in(prog, cfgs, pf, fld)
